@@ -12,7 +12,8 @@ PROPS = ['Props/Properties_C32.v']
 EXTRACT = '''From Coq Require Import Extraction ExtrOcamlBasic.
 Require Import C32_Model.
 Extraction "C32x.ml" conv_int conv_bool conv_float print_float print_bool print_int is_float_lit trim clean
-  write write_array read_fixed read_array shape_of open_stream read_token.
+  write write_array read_fixed read_array shape_of open_stream read_token
+  xml_encode xml_read_text xml_read_attr get_entity.
 '''
 WS = [' ', '\t', '\n', '\r', '\f', '\v']
 FIXED = {'S': 1, 'C': 2, 'V3': 3, 'R3': 3, 'V2V3': 6, 'M23': 6, 'M22': 4, 'V3F': 3}
@@ -133,6 +134,39 @@ def gen_commands(ctx):
             text += r.choice(toks[:9] if r.random() < 0.85 else toks) + ''.join(r.choice(WS) for _ in range(r.choice([1, 1, 1, 2, 3])))
         if r.random() < 0.6: text = text.rstrip(''.join(WS))
         add('read stream ' + ty, 'RU %s %s' % (ty, hx(text)))
+    # (6) XML character data: text and attribute values through the API (written, re-read) in both white-space
+    #     modes, and hand-written documents with named / numeric references (hex lower and upper case, decimal)
+    ctrl = [chr(c) for c in range(1, 32)]
+    special = ['&', '<', '>', '"', "'", ';', '#', 'x', ' ']
+    def xml_string():
+        k = r.random(); n = r.randrange(1, 9)
+        if k < 0.35: pool = ctrl + list('abZ09') + special
+        elif k < 0.7: pool = list('abcXYZ 0123') + special
+        else: pool = [chr(c) for c in range(1, 128)]
+        t = ''.join(r.choice(pool) for _ in range(n))
+        if r.random() < 0.15: t = r.choice(['&#x41;', 'a&#x', '&#x;', '&#', '&#65;', '&amp;', '&amp', '&#xZ;', '&;']) + t
+        return t
+    for c in range(1, 32):                   # every control character, alone between letters, in text and attribute
+        for cmd in ('XT', 'XA'):
+            add('xml control chars', '%s %d %s' % (cmd, r.choice([0, 1]), hx('a' + chr(c) + 'b')))
+    add('xml control chars', 'XA 1 %s' % hx(''.join(ctrl)))
+    add('xml control chars', 'XT 1 %s' % hx('q' + ''.join(ctrl) + 'q'))
+    add('xml control chars', 'XT 0 %s' % hx('q' + ''.join(ctrl) + 'q'))
+    for _ in range(500 if T else 120):
+        add('xml api round trip', '%s %d %s' % (r.choice(['XT', 'XA']), r.choice([0, 1]), hx(xml_string())))
+    refs = ['&amp;', '&lt;', '&gt;', '&quot;', '&apos;', '&foo;', '&', '&#', '&#;', '&#x;', '&#xZ;', '&#1x2;', '&#x1x2;', '&#1#2;']
+    def ref():
+        k = r.random(); c = r.choice([r.randrange(1, 32), r.randrange(32, 128), r.randrange(128, 256), r.randrange(256, 70000)])
+        if k < 0.25: return '&#x%x;' % c
+        if k < 0.5: return '&#x%X;' % c
+        if k < 0.6: return '&#x%04X;' % c
+        if k < 0.85: return '&#%d;' % c
+        return r.choice(refs)
+    for c in list(range(1, 32)) + [65, 127]: # every control character as lower-case, upper-case and decimal reference
+        add('xml hand-written refs', 'XR 1 %s' % hx('a&#x%02x;&#x%02X;&#%d;b' % (c, c, c)))
+    for _ in range(400 if T else 100):
+        parts = [r.choice([ref(), ref(), r.choice(['a', 'B', '7', ' ', '  ', '\t', '\n', ';', '#', 'x', '>', "'"])]) for _ in range(r.randrange(1, 7))]
+        add('xml hand-written refs', 'XR %d %s' % (r.choice([0, 1]), hx(''.join(parts))))
     return cmds, kinds
 
 def tagged_search(ctx, exe, n):
@@ -181,6 +215,28 @@ def tagged_search(ctx, exe, n):
             expect.append(('readUnformatted<%s>(%r)' % (ty, text),
                            lambda o, vals=vals, single=single: o[:1] == ['1'] and
                                (lambda back: len(back) == 3 and all(same(t, x, single) for t, x in zip(back, vals)))([t for t in o[1:] if not t.startswith('n')])))
+    # XML: strings whose round trip is known by construction (no "&#x", not blank; in condensing mode no leading,
+    # trailing or doubled blank): the value read back must be the value written, for element text and attributes
+    def xml_ok(t): return '&#x' not in t and t.strip(' \t\n\r\f\v') != ''
+    cases = ['a' + chr(c) + 'b' for c in range(1, 32)] + ['x&<>"\'y', '&amp;', 'a;b#c', 'line1\nline2', 'cr\rlf\r\nend', 'ff\fvt\vend', 'esc\x1b\x1f.', ''.join(chr(c) for c in range(1, 32)) + '.']
+    for _ in range(n // 4):
+        cases.append(''.join(r.choice([chr(c) for c in range(1, 128)]) for _ in range(r.randrange(1, 10))))
+    for t in cases:
+        if not xml_ok(t): continue
+        for cmd, cw in (('XT', 0), ('XA', 0), ('XA', 1), ('XT', 1)):
+            if cmd == 'XT' and cw == 1:
+                t2 = ' '.join(t.replace(' ', ' ').split(' ')); t2 = t2.strip(' ')
+                while '  ' in t2: t2 = t2.replace('  ', ' ')
+                if not xml_ok(t2): continue
+                tt = t2
+            else: tt = t
+            lines.append('%s %d %s' % (cmd, cw, hx(tt)))
+            expect.append(('Xml %s %r (condense=%d) written and re-read' % ('element text' if cmd == 'XT' else 'attribute value', tt, cw),
+                           lambda o, tt=tt: o[1:2] == ['1'] and o[2:3] == [hx(tt)]))
+    for c in range(1, 128):                      # hand-written references: lower case, upper case, decimal
+        content = 'a&#x%02x;&#x%02X;&#%d;b' % (c, c, c)
+        lines.append('XR 1 %s' % hx(content))
+        expect.append(('hand-written references %r' % content, lambda o, c=c: o[:1] == ['1'] and o[1:3] == [hx('a' + chr(c) * 3 + 'b')] * 2))
     for i in range(n):
         k = i % 6
         if k == 0:
@@ -300,12 +356,28 @@ def run(ctx):
         if lo[0].split()[:1] == ['1'] and lo[1].split()[:1] == ['0']:
             ctx.report('array_unformatted_trailing_ws', 'readUnformatted(Array_<double>) accepts "1 2 3" but fails on "1 2 3 " (white space after the last element is read as a failed element); theorem C32_array_trailing_space_refuted',
                        {'replay_cmd': "echo 'RU A %s' | %s" % (hx('1 2 3 '), exe), 'failing_input': '"1 2 3 "', 'observed': lo[:2]})
+        # ---- findings of the XML character-data route, replayed (model theorems C32_xml_roundtrip_refuted,
+        #      C32_xml_blank_text_refuted; utf8 = false in the model run, see the driver)
+        rc, lx, _ = run_lines(exe, 'XA 1 %s\nXT 1 %s\nXA 1 %s\nXT 1 %s\nXT 0 %s\nXR 1 %s\n' %
+                              (hx('&#x41;'), hx('&#x41;'), hx('a&#x'), hx('\t'), hx(' '), hx('&#233;&#x20AC;')))
+        ox = [l.split() for l in lx[:6]]
+        ctx.extra['K_xml'] = ox
+        if ox[0][1:] == ['1', hx('A')] and ox[1][1:] == ['1', hx('A')] and ox[2] == ['0']:
+            ctx.report('xml_reference_passthrough', 'a value that contains "&#x" is written unescaped (EncodeString passes existing hexadecimal references through): "&#x41;" is re-read as "A", "a&#x" gives a document that cannot be parsed',
+                       {'replay_cmd': "echo 'XA 1 %s' | %s" % (hx('&#x41;'), exe), 'failing_input': 'attribute value / element text "&#x41;" and "a&#x"', 'observed': ox[:3]})
+        if ox[3][-2:] == ['1', '-'] and ox[4][-2:] == ['1', '-']:
+            ctx.report('xml_blank_text_dropped', 'element text consisting only of white space ("\\t", " ") is lost on re-reading, with and without white-space condensing (blank text nodes are deleted by TiXmlElement::ReadValue)',
+                       {'replay_cmd': "echo 'XT 0 %s' | %s" % (hx(' '), exe), 'failing_input': 'element text "\\t" (condensing on) and " " (condensing off)', 'observed': ox[3:5]})
+        if ox[5] == ['1', 'e9ac', 'e9ac']:
+            ctx.report('xml_reference_above_127_truncated', 'in a document declared encoding="UTF-8" the references &#233; and &#x20AC; are read as the single bytes E9 and AC instead of UTF-8: TiXmlDocument::Parse never sees the declaration (shadowed variable "node"), so the encoding stays unknown; patch patches/C32_xml_declaration_encoding.diff',
+                       {'replay_cmd': "echo 'XR 1 %s' | %s" % (hx('&#233;&#x20AC;'), exe), 'failing_input': '<?xml version="1.0" encoding="UTF-8"?><r a="&#233;&#x20AC;">&#233;&#x20AC;</r>', 'observed': ox[5]})
     ctx.assumptions += [
         'libc is an oracle: strtod/strtof behind operator>> (strto) and snprintf "%.17g"/"%.9g" (fmt); the round-trip theorems assume fmt x is a floating literal that strto converts back to x (true for glibc at 17/9 digits; exercised by the value round-trip cases, not proved)',
         'C locale, 7-bit ASCII strings (std::isspace/tolower of the C locale)',
         'float (binary32) conversion in the extracted-model run uses strtod followed by rounding to single (double rounding differs from strtof only for decimals within 2^-54 relative distance of a binary32 tie, which the generators do not produce)',
         'the text route String(T)/convertTo<T> for composites (Vec, Vector, Mat, complex, Array_ with brackets and commas: readArrayFromStream, operator>>) is not modelled; composites are claimed for the unformatted route only',
-        'XML round trips (Xml.cpp, TinyXML) are not modelled and not decided']
+        'XML: only the character data of element text and attribute values is modelled (EncodeString, GetEntity, GetChar, ReadText, blank-text rule; 7-bit input bytes; numeric references decoded as in the unknown-encoding mode the code actually runs in); document structure (tags, comments, declarations, CDATA, nesting), UTF-8 multi-byte input and file I/O are not modelled',
+        'white-space condensing (the documented default) collapses blanks in element text; the round-trip theorem for element text is proved for the keep-white-space mode, the condensing reader is tied by the correspondence only']
     # the search is model-independent and cheap: run it on every run (larger when something broke or in thorough)
     if okc: tagged_search(ctx, exe, 6000 if T else (600 if ctx.broken else 240))
     ctx.finish()
